@@ -11,7 +11,7 @@
    layout, Denote = what each lookup does to every probe sequence.                               *)
 EXTENDS OTLRepack, OTLSem, TLC, Json
 
-CONSTANTS Table, MaxL, TwoSubs
+CONSTANTS Table, HBMode, Shapes        \* Shapes: set of "<lookups>x<subtables>" list shapes, e.g. {"2x1", "1x2"}
 
 MCLimits == [l2 |-> 7, l3 |-> 1000, l4 |-> 1000]
 ItemSize(k, id) ==
@@ -40,11 +40,15 @@ GposMenu == << Sub("pair1", <<1, 2, 3>>, <<>>),
                Sub("pair1", <<7>>, <<>>),           \* one PairSet, cannot be split
                Sub("pair2", <<0, 1, 2, 3>>, << <<1, 0>>, <<2, 1>>, <<3, 2>>, <<4, 3>>, <<5, 2>> >>),
                Sub("pair2", <<0, 1>>, << <<1, 0>>, <<2, 1>> >>),
-               Sub("mkb", <<0, 1, 2>>, << <<9, 0>>, <<10, 1>>, <<11, 2>> >>),
+               Sub("mkb", <<0, 1, 2, 3>>, << <<9, 0>>, <<10, 1>>, <<11, 2>>, <<12, 3>> >>),   \* BaseArray -> anchors of class 3 overflows
                Sub("sp2", <<4, 5>>, <<>>),
                Sub("fix", <<6>>, <<>>) >>
 Menu == IF Table = "GSUB" THEN GsubMenu ELSE GposMenu
-LkOpts == {<<Menu[p]>> : p \in 1..Len(Menu)} \cup (IF TwoSubs THEN {<<Menu[p], Menu[q]>> : p, q \in 1..Len(Menu)} ELSE {})
+One == {<<Menu[p]>> : p \in 1..Len(Menu)}
+Two == {<<Menu[p], Menu[q]>> : p, q \in 1..Len(Menu)}
+MaxLOf(sh) == IF sh \in {"1x1", "1x2"} THEN 1 ELSE IF sh \in {"2x1", "2x2"} THEN 2 ELSE 3
+LkOpts(sh) == IF sh \in {"1x2", "2x2"} THEN One \cup Two ELSE One
+MaxL == MaxOf({MaxLOf(sh) : sh \in Shapes})
 
 -----------------------------------------------------------------------------
 (* meaning of the item ids *)
@@ -89,15 +93,15 @@ Sem(lk) ==
 (* a lookup may only mix subtables of one lookup type *)
 WellTyped(lk) == \A i \in 1..Len(lk) : \A j \in 1..Len(lk[i].st) : TyOf(lk[i].st[j].k, Table = "GPOS") = TyOf(lk[i].st[1].k, Table = "GPOS")
 
-Probes == {<<a>> : a \in Universe} \cup {<<a, b>> : a \in Universe, b \in {1, 4, 7, 9, 10, 11}} \cup {<<a, 9, 9>> : a \in {4, 7, 1}}
-            \cup {<<a, 10, 11>> : a \in {1, 2}} \cup {<<2, 9>>, <<2, 10>>, <<2, 11>>, <<1, 9, 10>>}
+Probes == {<<a>> : a \in 1..8} \cup {<<a, b>> : a \in 1..8, b \in {9, 10, 4}} \cup {<<a, 9, 9>> : a \in {4, 7, 1}}
+            \cup {<<a, b>> : a \in {1, 2}, b \in {9, 10, 11}} \cup {<<2, 2>>, <<5, 5>>, <<1, 9, 10>>, <<1, 10, 11>>, <<2, 11, 10>>}
 DenoteMC(lk) ==
   LET L == Sem(lk)
   IN [i \in 1..Len(lk) |-> IF Table = "GPOS" THEN DenotePos(L, i, Probes) ELSE <<DenoteSub(L, i, Probes), [q \in {<<4>>, <<5>>} |-> ApplyLookup(L.gsub.lookups, L.gdef, i, [b |-> q, ps |-> <<>>], 2).b]>>]
 
 -----------------------------------------------------------------------------
-MInit == \E n \in 1..MaxL : \E f \in [1..n -> LkOpts] :
-           LET lk == [i \in 1..n |-> [ext |-> FALSE, st |-> f[i]]] IN WellTyped(lk) /\ RInit(lk)
+MInit == \E sh \in Shapes : \E n \in 1..MaxLOf(sh) : \E f \in [1..n -> LkOpts(sh)] :
+           LET lk == [i \in 1..n |-> [ext |-> FALSE, st |-> f[i]]] IN WellTyped(lk) /\ RInit(lk, HBMode = "on")
 MSpec == MInit /\ [][RNext]_rvars /\ WF_rvars(AttemptFT \/ AttemptHB \/ Resolve)
 (* every successful resolution lowers Measure, and between two of them there are at most three passes *)
 TerminatesInv == TerminatesWithin(40)
